@@ -145,6 +145,15 @@ def run_check(spec, tier, seed, replay=None):
     rep.cov["discharged"] = len(discharged)
     rep.cov["theorems"] = discharged
     rep.cov["axioms_used"] = sorted(set(a for v in axioms.values() for a in v))
+    if tier == "thorough" and not any(k == "obligation" for k, _, _ in broken):
+        # independent re-check of the compiled .olean files of every property module by leanchecker (one module per call)
+        lc = {}
+        for pm in spec.props_modules:
+            ok, out = core.leanchecker(pm)
+            lc[pm] = "ok" if ok else "FAILED"
+            if not ok:
+                broken.append(("obligation", pm, "leanchecker rejects the compiled module\n" + out[-2500:]))
+        rep.cov["leanchecker"] = lc
 
     # ---- stage 0b: harnesses
     hexe = {}
